@@ -1,1 +1,24 @@
+(* statement pins and axiom audit for C04 (compiled on every check; regenerate BY HAND with driver/mkpins.py) *)
+From ChiaV.Base Require Import Bytes.
+From ChiaV.Clvm Require Import Sexp Ints.
+From ChiaV.Gen Require Import Opcodes.
+From ChiaV.Cond Require Import Model Spec Facts Invariants CostFacts.
+Open Scope N_scope.
 From ChiaV.Props Require Import C04.
+Check C04_cost_constants_are_consensus :
+  AGG_SIG_COST = Spec.AGG_SIG_COST /\ CREATE_COIN_COST = Spec.CREATE_COIN_COST /\
+  NEW_CREATE_COIN_COST = Spec.NEW_CREATE_COIN_COST /\ SPEND_COST = Spec.SPEND_COST /\
+  MESSAGE_CONDITION_COST = Spec.MESSAGE_CONDITION_COST /\ GENERIC_CONDITION_COST = Spec.GENERIC_CONDITION_COST.
+Print Assumptions C04_cost_constants_are_consensus.
+Check C04_two_byte_cost_table :
+  COSTS = Spec.two_byte_costs.
+Print Assumptions C04_two_byte_cost_table.
+Check C04_unknown_condition_cost :
+  forall op,
+  compute_unknown_condition_cost op = if op <? 256 then 0 else nth (N.to_nat (op mod 256)) Spec.two_byte_costs 0.
+Print Assumptions C04_unknown_condition_cost.
+Check C04_cost_accounting :
+  forall vk H K fl V t max_cost clvm_cost b spends pairs,
+  parse_spends vk H K fl V t max_cost clvm_cost = Ok (b, spends, pairs) ->
+  b_cost b = b_cond_cost b /\ b_cond_cost b = sumN (map sp_cond_cost spends) /\ b_cost b <= max_cost.
+Print Assumptions C04_cost_accounting.
